@@ -347,16 +347,22 @@ def other_scalar(lt, lv, k=1):
     return ex[0]
 
 
-def other_string(lv):
+def other_string(lv, k=1):
+    """a different string that fits the space of `lv`: same byte length (k%3==1), much shorter
+    (k%3==2, ends in an earlier slot), or empty (k%3==0)"""
     n = len(lv.encode())
-    return "".join(chr(ord("b") + (i * 3) % 20) for i in range(n)) if n else ""
+    if k % 3 == 2:
+        n = max(1, n // 5) if n > 1 else 0
+    elif k % 3 == 0:
+        n = 0
+    return "".join(chr(ord("b") + (i * 3 + k) % 20) for i in range(n)) if n else ""
 
 
 def fitting_value(lt, lv, k=1):
     if lt[0] == "scalar":
         return other_scalar(lt, lv, k)
     if lt[0] == "string":
-        return other_string(lv)
+        return other_string(lv, k)
     return None
 
 
@@ -696,11 +702,12 @@ def sc_c10(env, t, v, cfg):
         via = obj
         if len(st) > 2 and st[2] == "view" and t[0] != "uref":
             via = cls._from_buffer(obj._buffer, obj._offset)
-        if st[0] == "set":
-            if not lv:
+        if st[0] in ("set", "sets"):
+            pool = lv if st[0] == "set" else [q for q in lv if q[1][0] == "string"]
+            if not pool:
                 continue
-            path, lt, x = lv[st[1] % len(lv)]
-            nv = fitting_value(lt, x, stepno + 1)
+            path, lt, x = pool[st[1] % len(pool)]
+            nv = fitting_value(lt, x, stepno + (1 if st[0] == "set" else 2))
             try:
                 V.set_at(t, via, path, nv)
             except BaseException as ex:
@@ -791,9 +798,14 @@ def sc_c11(env, t, v, cfg):
             if lt[0] != "string" or not path:
                 continue
             cap = (len(lv.encode()) + 1 + 8 + 7) // 8 * 8 - 8  # bytes available after the size word
-            for extra in (0, 1, 9):
-                nv = "z" * (cap + extra)  # needs cap+extra+1 bytes with its terminator
-                expect_error(env, B, lambda: V.set_at(t, obj, path, nv), f"assigning a string of {len(nv)} bytes (+NUL) to a string with {cap} bytes of space at {path}")
+            cands = ["z" * (cap + extra) for extra in (0, 1, 9)]  # needs cap+extra+1 bytes with its terminator
+            # multi-byte text: few characters, too many bytes
+            cands += ["\u00e9" * ((cap + 1) // 2), "\u65e5" * (cap // 3 + 1)]
+            for nv in cands:
+                nb = len(nv.encode())
+                if nb + 1 <= cap:
+                    continue
+                expect_error(env, B, lambda: V.set_at(t, obj, path, nv), f"assigning a string of {len(nv)} characters / {nb} bytes (+NUL) to a string with {cap} bytes of space at {path}")
             n += 1
             if n >= cfg.get("max_cases", 3):
                 break
